@@ -89,8 +89,8 @@ def model_args(fields, d):
 
 def check_cases(run, model, table, fields, path, datas, tag):
     """table: replay description of the header file; datas: list of bytes."""
-    exps = model.batch([("hlog",) + tuple(model_args(fields, d)) for d in datas])
-    for d, exp in zip(datas, exps):
+    for d in datas:
+        exp = model.call("hlog", *model_args(fields, d))
         run.evaluations += 1
         got = impl_parse(d, path)
         what = prop_hlog(fields, d, got)
